@@ -207,6 +207,11 @@ class ESSearch(ABC):
                     * self.scale
                 )
 
+        if us.shape[0] == 0:
+            # Every candidate was removed by the bound/feasibility filter:
+            # return an empty search set (handled by the caller).
+            return np.empty((0, nvars)), np.empty((0,))
+
         return us[0], z[0]
 
 
